@@ -463,8 +463,13 @@ class Gen:
                            for d in chain)
         chain_recog = any(d.get('recognize') for d in chain)
         chain_extra = any(d.get('extra') for d in chain)
+        # hooks of base and derived class both run bases-first when loading
+        # and when dumping, so two of them rewriting the same attribute are
+        # not inverses of each other any more
+        chain_int = any((d.get('savorize') or [[None]])[0][0] in (
+            'add_int', 'word_to_int') for d in chain)
         if r < 0.12 and not c.get('extra'):
-            if not chain_recog and not chain_extra:
+            if not chain_recog and not chain_extra and not chain_int:
                 c['savorize'] = [['dashes_to_unders']]
                 c['sweeten'] = [['unders_to_dashes']]
         elif chain_dashes and r < 0.36:
@@ -497,7 +502,7 @@ class Gen:
                     and 'default' not in p]
             has_sub = any(c['name'] in d.get('bases', [])
                           for d in self.classes)
-            if ints and not has_sub:
+            if ints and not has_sub and not chain_int:
                 a = ints[0]['name']
                 c['word_attr'] = a
                 rules = [['attr', p['name'], None] for p in c['params']
@@ -509,6 +514,16 @@ class Gen:
         elif r < 0.42:
             c['savorize'] = [['record']]
             c['sweeten'] = [['record']]
+        elif 0.5 <= r < 0.57:
+            ints = [p for p in c['params'] if p['type'] == 'int'
+                    and 'default' not in p]
+            if ints and not chain_int and not chain_dashes:
+                # an inverse pair that is not idempotent (base-1 <-> base-0
+                # numbering): applying a hook twice, or only on one side,
+                # changes the value
+                a = ints[0]['name']
+                c['savorize'] = [['add_int', a, -1]]
+                c['sweeten'] = [['add_int', a, 1]]
         elif r < 0.5 and not c.get('extra') and 'zmark' not in names \
                 and not chain_recog:
             # a marker attribute written by the sweetener through the Node
